@@ -36,9 +36,9 @@ CHECKS = {
   "design_ref": "DESIGN.md section 6 / C06",
  },
  "C13": {
-  "text": "Executable Lean model of the leaky-bucket credit (fill_flush_alloc, the three emitters) generic over the floating-point operations; the Float instance is bit-exact with the code (flush_alloc, rate, rtt bits compared in every probe). The interval bound bytes(t1,t2] <= ceiling*(t2-t1+rtt)+1472 is evaluated on the implementation over all pairs of emission instants in scenarios with ceilings from 1472 B/s, backlogs, 0.1 ms..10 s cadences, repeated flushes and pauses. Found and repaired F14/F15 (per-step rounding) and F13 (ceiling not re-applied). Credit-invariant theorems are in progress (evidence.partial).",
-  "note": "Partial: theorems on the credit recurrence in progress; IEEE rounding modelled not verified.",
-  "technique": "Lean 4 model generic over FloatOps + bit-exact differential correspondence + sliding-interval oracle",
+  "text": 'Lean theorems on the leaky-bucket model, for EVERY floating-point behaviour (FloatOps abstract) and every interleaving of step / flush / send / receive / frame handlers: C13_interval (bytes emitted over any event list <= max(credit at start, -1472) + sum of the credit refills of the steps in it + 1472; refills are what fill_flush_alloc adds, capped at rate*rtt by C13_fill_cap), C13_interval_between_steps (between two steps at most credit + 1472 bytes, however often flush is called), C13_frame_needs_credit (no frame while the credit is negative; the credit is debited by exactly the bytes sent), C13_credit_floor (never below -1472; every frame <= 1472 bytes), C13_emitters (the same contract for each of the three emitters), C13_step_fill, C13_flush_idempotent_credit. The Float instance is bit-exact with the code (flush_alloc, rate, rtt bits compared in every probe). The numeric bound bytes(t1,t2] <= ceiling*(t2-t1+rtt)+1472 is evaluated on the implementation over all pairs of emission instants (ceilings from 1472 B/s, backlogs, 0.1 ms..10 s cadences, repeated flushes, pauses). Found and repaired F14/F15 (per-step rounding) and F13 (ceiling not re-applied).',
+  "note": 'Trusted: Lean kernel (propext, Classical.choice, Quot.sound), extract_consts.py, harness/driver. Modelled not verified: that the float refill rate*dt is numerically <= ceiling*dt (IEEE arithmetic): the theorems bound bytes by the sum of refills, the numeric step from refills to ceiling*(dt+rtt) is checked by the oracle on the bit-exact instance.',
+  "technique": 'Lean 4 proofs over all event interleavings and all FloatOps + bit-exact differential correspondence + sliding-interval oracle',
   "design_ref": "DESIGN.md section 6 / C13",
  },
  "C14": {
@@ -108,9 +108,9 @@ CHECKS = {
   "design_ref": "DESIGN.md section 6 / C05",
  },
  "C12": {
-  "text": "Executable Lean models of the send queue (TimeSensitive drop by flush id, resend flag per mode), the pending / resend queues (std BinaryHeap order reproduced) and the emitters; every datagram of every emitted data frame is compared with the code (hc correspondence) under low credit ceilings cutting packets across flushes, acks arriving between the fragments of one packet, loss and duplication. Wire-level oracle on the implementation: each Unreliable/TimeSensitive fragment at most once; a TimeSensitive packet not begun in the flush following its submission never appears (found and repaired F18); fragment 0 first; only TimeSensitive packets are ever skipped; no fragment after its acknowledgement was certainly accepted, nor after the sender's window base passed its packet. Theorems: C12_dropStale_head; the wire-log theorems (C12_once, C12_ts_drop, C12_no_resend_after_ack) are in progress.",
-  "note": "Partial: wire-log theorems in progress; 'retransmitted until acknowledged' is a liveness clause checked only on generated schedules (C02 oracle). Trusted: harness/driver, fragment identification by fnv of pseudo-random payloads.",
-  "technique": "Lean 4 executable model + differential correspondence per emitted datagram + wire-level oracle; theorems in progress",
+  "text": "Lean theorems on an instrumented copy of the emitters (wire trace of every (packet uid, fragment, resend flag, flush id) pushed into a frame; erasure theorems flushT_erase / execT_erase show the instrumented run is the model's run): C12_pending_once (over any event list each fragment is pushed at most once with resend=false and is absent from both queues forever after), C12_emit_resend_flag (resend flag = Persistent|Reliable; TimeSensitive packets carry their flush id), C12_ts_wire (fragment 0 of a TimeSensitive packet is only ever pushed in the flush it was queued for; never from the resend queue), C12_ts_drop_queue / C12_ts_stale_after_step / C12_pendingInner_expired / C12_ts_drop_partial (stale packets are removed from the send queue, and - the repaired defect F18 - from the pending queue), C12_no_resend_after_ack (a fragment acknowledged or whose packet left the window is never pushed again, over any run), C12_resend_until_ack (a resend-flagged fragment stays in the resend queue until dead; backoff rtt*2^count capped: C12_resendLoop_push), C12_heap (push/pop are permutations). Tied to the code by hc correspondence comparing every datagram of every emitted data frame under low credit ceilings, acks between fragments, loss and duplication; wire-level oracle on the implementation (at-most-once, TimeSensitive drop, fragment 0 first, only TimeSensitive skipped, nothing after ack / window passed).",
+  "note": "Partial: C12_ts_drop_partial keeps the hypothesis that fragment 0 was not acknowledged (needs a FrameQ invariant that only sent fragments are acked); 'retransmitted until acknowledged' as liveness (eventually offered again) is checked on generated schedules only. Trusted: harness/driver, fragment identification by fnv of pseudo-random payloads.",
+  "technique": 'Lean 4 proofs on an instrumented emitter model with erasure theorems + differential correspondence per emitted datagram + wire-level oracle',
   "design_ref": "DESIGN.md section 6 / C12",
  },
  "C11": {
